@@ -87,7 +87,8 @@ CLAIMS = {
             "level-0 link, erase success/functor/retire only for the winner of the level-0 mark CAS and retire only when all levels were "
             "unlinked (helper: counter reached zero); Ellen tree: child pointers swung only by help_insert/help_marked, IFlag/DFlag CAS -> help "
             "only when won, descriptors freed directly only when unpublished, nodes retired only by the winner of the Mark CAS, functor/counter "
-            "after help_delete succeeded, new internal node ordered by the comparison and initialised before the flag CAS. "
+            "after help_delete succeeded, new internal node ordered by the comparison and initialised before the flag CAS; Bronson map: node "
+            "fields written only under that node's monitor lock (lockset on paths, *_locked parameter convention inferred from the call sites). "
             "Linearizability and the extract_min/max emptiness claims are NOT decided.",
             "static analysis: typestate / value-numbered path tables on enumerated CFG paths + who-may-write tables + belief propagation over the call graph",
             "DESIGN.md §4 C15"),
